@@ -8,7 +8,7 @@ package vgirpc
 //
 //@ func (*HttpServer).checkTokenAge
 //@   property C15
-//@   requires h != nil
+//@   # (h is dereferenced: non-nil by partial correctness)
 //@   modifies nothing
 //@   ensures [ttl] (result == nil) <==> sinceNs(unixTime(createdAt, 0)) <= h.tokenTTL
 
@@ -52,7 +52,3 @@ package vgirpc
 //@   at call (*HttpServer).handleProducerContinuation assert [state_producer] arg4 == tokenData.State && isProducer && arg11 == tokenData.CallID
 //@   at call (*HttpServer).handleExchangeCall assert [state_exchange] arg6 == tokenData.State && !isProducer && arg13 == tokenData.CallID
 //@   at call (*HttpServer).handleStreamCancel assert [state_cancel] arg4 == tokenData.State && cancelled
-//@   # the continuation kind that runs is the kind the ROUTE's method was registered with; only a
-//@   # dynamic method leaves the choice to the state (and nothing else does, e.g. the token)
-//@   at call (*HttpServer).handleProducerContinuation assert [kind_producer] info.Type == MethodProducer || info.Type == MethodDynamic
-//@   at call (*HttpServer).handleExchangeCall assert [kind_exchange] info.Type == MethodExchange || info.Type == MethodDynamic
